@@ -262,28 +262,28 @@ package fox
 //@ func (*Router).Route props C06,C05 partial
 //@   requires fox != nil && published[&fox.tree] != nil
 //@   assume-at call (*cTx).resetNil#1 : pool-discipline: c != nil && c.params != nil && c.tsrParams != nil && c.skipNds != nil
-//@   modifies heap, unlockedLoads[&fox.tree]
+//@   modifies heap, unlockedLoads[&fox.tree], released
 //@   ensures nolock: held[&fox.mu] == old(held[&fox.mu]) && lockOps[&fox.mu] == old(lockOps[&fox.mu]) && pubCount[&fox.tree] == old(pubCount[&fox.tree])
 //@   ensures one-load: unlockedLoads[&fox.tree] == old(unlockedLoads[&fox.tree]) + (held[&fox.mu] ? 0 : 1)
 //@   ensures found: result != nil ==> result == old(selNode(published[&fox.tree], method, splitHost(pattern), splitPath(pattern)).route) && !old(selTsr(published[&fox.tree], method, splitHost(pattern), splitPath(pattern)))
 
 //@ func (*Router).Has props C06,C05
 //@   requires fox != nil && published[&fox.tree] != nil
-//@   modifies heap, unlockedLoads[&fox.tree]
+//@   modifies heap, unlockedLoads[&fox.tree], released
 //@   ensures nolock: held[&fox.mu] == old(held[&fox.mu]) && lockOps[&fox.mu] == old(lockOps[&fox.mu]) && pubCount[&fox.tree] == old(pubCount[&fox.tree])
 //@   ensures one-load: unlockedLoads[&fox.tree] == old(unlockedLoads[&fox.tree]) + (held[&fox.mu] ? 0 : 1)
 
 //@ func (*Router).Reverse props C06,C05 partial
 //@   requires fox != nil && published[&fox.tree] != nil
 //@   assume-at call (*cTx).resetNil#1 : pool-discipline: c != nil && c.params != nil && c.tsrParams != nil && c.skipNds != nil
-//@   modifies heap, unlockedLoads[&fox.tree]
+//@   modifies heap, unlockedLoads[&fox.tree], released
 //@   ensures nolock: held[&fox.mu] == old(held[&fox.mu]) && lockOps[&fox.mu] == old(lockOps[&fox.mu]) && pubCount[&fox.tree] == old(pubCount[&fox.tree])
 //@   ensures one-load: unlockedLoads[&fox.tree] == old(unlockedLoads[&fox.tree]) + (held[&fox.mu] ? 0 : 1)
 
 //@ func (*Router).Lookup props C06,C05,C12 partial
 //@   requires fox != nil && published[&fox.tree] != nil && r != nil && r.URL != nil
 //@   assume-at call (*cTx).resetWithWriter#1 : pool-discipline: c != nil && c.params != nil && c.tsrParams != nil && c.skipNds != nil
-//@   modifies heap, unlockedLoads[&fox.tree]
+//@   modifies heap, unlockedLoads[&fox.tree], released
 //@   ensures nolock: held[&fox.mu] == old(held[&fox.mu]) && lockOps[&fox.mu] == old(lockOps[&fox.mu]) && pubCount[&fox.tree] == old(pubCount[&fox.tree])
 //@   ensures one-load: unlockedLoads[&fox.tree] == old(unlockedLoads[&fox.tree]) + (held[&fox.mu] ? 0 : 1)
 //@   ensures selected: old(sn(fox, r)) != nil ==> route == old(sn(fox, r).route)
@@ -291,6 +291,7 @@ package fox
 //@   ensures selected-tsr: tsr == old(st(fox, r))
 //@   ensures current-request: route != nil ==> cc != nil && dyntypeIs(cc, *cTx) && ctxOf(cc).req == r && ctxOf(cc).route == route && ctxOf(cc).tsr == tsr && ctxOf(cc).scope == RouteHandler
 //@   ensures none: route == nil ==> cc == nil
+//@   ensures live: route != nil ==> !released[cc]
 
 //@ func (*Router).Len props C06,C05,C02
 //@   requires fox != nil && published[&fox.tree] != nil
